@@ -29,8 +29,8 @@ TRUSTED = [
     "ast.literal_eval, float(), UUID(), the subfield (de)serializers and re are oracles: the theorem assumes, per rendered "
     "value, the hypotheses lines_ok/var_ok of HumanTextProofs.v (every physical line stripped is non-empty and does not end "
     "in a backslash, no newline inside a line, the implicit concatenation of the stripped lines reads back to the value "
-    "through the parser's own sniffers, a trailing inline comment is ignored, the packer re-encodes the pretty value given "
-    "the variables parsed so far); each hypothesis is checked on every generated value by the 'wire' suite",
+    "through the parser's own sniffers, a trailing inline comment is ignored, the packer - run after the whole text is read, on the block "
+    "with None placeholders for the packed values not yet restored - re-encodes the pretty value); each hypothesis is checked on every generated value by the 'wire' suite",
     "modelled by hand: HumanMessageSerializer.from_human_string / to_human_string / _format_var / _multi_line_pformat "
     "(text = list of code points; exceptions = OErr; Python dict insertion order = association lists)",
     "regex word class is exact below U+0100 only; code points from U+0100 up are treated as non-word by the model and the "
@@ -145,7 +145,10 @@ class _FakeSer:
         self.key = key
 
     def serialize(self, block, val):
-        return Sym("P:%s:%s:%s(%s)" % (show_s(self.key[0]), show_s(self.key[1]), show_s(self.key[2]), sym_of(val)))
+        if self.key[2].startswith("Z"):
+            raise ValueError("packer raises")
+        ks = ",".join(show_s(k) + ("!" if v is None else "") for k, v in block.vars.items())
+        return Sym("P:%s:%s:%s{%s}(%s)" % (show_s(self.key[0]), show_s(self.key[1]), show_s(self.key[2]), ks, sym_of(val)))
 
 
 class _FakeSerTable:
@@ -160,6 +163,8 @@ def sym_of(v) -> str:
         return v.s
     if isinstance(v, tuple):
         return "V:" + "/".join(float(x).hex() for x in v)
+    if v is None:
+        return "N"
     return "?:" + type(v).__name__
 
 
@@ -246,6 +251,7 @@ ALPHABET_EXTRA = [0x85, 0xA0, 0x2003, 0x2028, 0x3000, 0x1C, 0x0B, 0x0C, 0x0D, 0x
 SMALL_LINES = [
     "[B]", "[C]  # Variable", "a = 1", "b = 'x' \\", "  'y'", "# note", "", "a =$ f(1)", "c =| {'k': 1} #7",
     "v = <1, 2.5,-3e2>", "r = [[X]]", "r = [[Y]]", "junk", "[", "u = ab-cd-ef \\", "Qx =| 1", "d =|$ 2", "t = \\",
+    "[E]  # EMPTY", "[B] #EMPTY  ", "Zx =| 3",
 ]
 
 
@@ -298,7 +304,7 @@ def gen_texts(ctx, seeds):
             elif op < 0.6 and s:
                 s[min(pos, len(s) - 1)] = chr(rng.choice(chars))
             elif op < 0.7:
-                s[pos:pos] = list(rng.choice([" =$ ", "=$", "$", " =|$ ", "\\\n", " \\\n    ", "#", "[[X]]", "<", "=| ", "\n[Z]\n", " = "]))
+                s[pos:pos] = list(rng.choice([" =$ ", "=$", "$", " =|$ ", "\\\n", " \\\n    ", "#", "[[X]]", "<", "=| ", "\n[Z]\n", " = ", "  # EMPTY", "\n[Y]  # EMPTY\n"]))
             elif op < 0.8:
                 ls = "".join(s).split("\n")
                 i = rng.randrange(len(ls))
@@ -313,7 +319,7 @@ def gen_texts(ctx, seeds):
                 s = s[:pos]
         yield "mut", "".join(s)
     # structured random statements
-    names = ["a", "Name", "Q", "x_1", "\xe9t\xe9", "9", "A B"]
+    names = ["a", "Name", "Q", "x_1", "\xe9t\xe9", "9", "A B", "Zed", "b", "a"]
     ops = ["=", "=", "=", "=|", "=$", "=|$", "=$|", "= |", "==", "=||", ":", ""]
     vals = ["1", "'s'", "<1,2,3>", "<1, x>", "<>", "< 1e5 ,-.5>", "[[X]]", "[[AGENT_ID]] tail", "[[nope]]", "[[]]", "ab-cd-ef", "1-2-", "-a-b-", "a-b",
             "\xe9-\xe9-", "b'\\\\'", "'x' \\", "\\", "\\ \\", "  spaced  ", "#c", "'a' #c", "(1,", "[1]", "", "|x", "$x", "1_0-2-3", "<1,2> \\"]
@@ -322,7 +328,8 @@ def gen_texts(ctx, seeds):
         for _ in range(rng.randrange(0, 7)):
             r = rng.random()
             if r < 0.25:
-                lines.append(rng.choice(["[B]", "[B]", "[C]", "  [D]  # Variable", "[ ]", "[B", "[\xe9]"]))
+                lines.append(rng.choice(["[B]", "[B]", "[C]", "  [D]  # Variable", "[ ]", "[B", "[\xe9]", "[B]  # EMPTY", "[F] # EMPTY",
+                                         "[G] #  EMPTY x", "[H] EMPTY", "[EMPTY]", "[I]  # Variable # EMPTY", "[J] #\u2003EMPTY\xa0"]))
             elif r < 0.35:
                 lines.append(rng.choice(["# c", "   #", "", "   ", "\t", "#[B]", "# x = 1 \\"]))
             else:
@@ -625,26 +632,76 @@ def check_hyps(im, m, bn, bi, b, k, v, pres, replacements):
         return "pretty value does not read back (%s)" % type(e).__name__
     if repr(pv) != repr(pretty):
         return "pretty value reads back differently"
-    # pack with the variables parsed so far
-    from hippolyzer.lib.base.message.message import Block
-    pre = Block(bn)
-    pre.message_name = m.name
-    for k2, v2 in b.items():
-        if k2 == k:
-            break
-        pre.vars[k2] = v2
+    # the packer runs after the whole text has been read: the block then holds the true values of the
+    # variables before this one, a None placeholder for this one and for the packed ones after it
     ser = im.se.SUBFIELD_SERIALIZERS.get((m.name, bn, k))
+    if ser is None:
+        return "no serializer"
+    view = flush_view(im, m, b, k, replacements, beautify=True)
     try:
-        back = ser.serialize(pre, pv)
+        back = ser.serialize(view, pv)
     except Exception as e:
-        try:
-            ser.serialize(b, pv)
-            return "packer needs a later field (%s)" % type(e).__name__
-        except Exception:
-            return "packer raises (%s)" % type(e).__name__
+        return "packer raises on the block it sees (%s)" % type(e).__name__
     if not wire_eq(im, tv, back, v):
         return "packer re-encodes to other bytes"
     return None
+
+
+def flush_view(im, m, b, k, replacements, beautify, prefix_only=False):
+    from hippolyzer.lib.base.message.message import Block
+    view = Block(b.name)
+    view.message_name = m.name
+    seen = False
+    for k2, v2 in b.items():
+        if k2 == k:
+            seen = True
+            if prefix_only:
+                break
+            view.vars[k2] = None
+        elif not seen:
+            view.vars[k2] = v2
+        else:
+            p2 = present(im, m, b, k2, v2, replacements, beautify)
+            view.vars[k2] = None if p2[0] != "plain" else v2
+    return view
+
+
+def packs_on_true_block(im, m, b, k, v, p) -> bool:
+    import ast
+    eff = list(p[1])
+    if p[0] == "inline" and eff:
+        eff[-1] += " #" + p[2]
+    try:
+        pv = ast.literal_eval("".join(l.strip() for l in eff))
+        ser = im.se.SUBFIELD_SERIALIZERS.get((m.name, b.name, k))
+        return wire_eq(im, _tmpl_var(im, m, b, k), ser.serialize(b, pv), v)
+    except Exception:
+        return False
+
+
+def needs_later_field(im, m, replacements):
+    """a packed variable whose packer fails on the variables before it but works on the block the repaired parser shows it"""
+    import ast
+    for bn, bl in m.blocks.items():
+        for b in bl:
+            for k, v in b.items():
+                p = present(im, m, b, k, v, replacements, True)
+                if p[0] == "plain":
+                    continue
+                ser = im.se.SUBFIELD_SERIALIZERS.get((m.name, bn, k))
+                eff = list(p[1])
+                if p[0] == "inline" and eff:
+                    eff[-1] += " #" + p[2]
+                try:
+                    pv = ast.literal_eval("".join(l.strip() for l in eff))
+                    ser.serialize(flush_view(im, m, b, k, replacements, True), pv)
+                except Exception:
+                    continue
+                try:
+                    ser.serialize(flush_view(im, m, b, k, replacements, True, prefix_only=True), pv)
+                except Exception:
+                    return True
+    return False
 
 
 def precondition(im, m, beautify):
@@ -736,17 +793,21 @@ def check_roundtrip(im, dg_hex: str, beautify: bool, use_repl: bool, use_tmpl: b
 
 
 def classify(im, m, repl, beautify):
-    if any(len(bl) == 0 for bl in m.blocks.values()):
-        return "empty-block-list-dropped"
     for bn, bl in m.blocks.items():
         for bi, b in enumerate(bl):
             for k, v in b.items():
                 p = present(im, m, b, k, v, repl, beautify)
                 h = check_hyps(im, m, bn, bi, b, k, v, p, repl)
                 if h:
-                    if h.startswith("packer needs a later field"):
-                        return "packed-field-needs-later-field"
+                    if h.startswith("packer") and packs_on_true_block(im, m, b, k, v, p):
+                        # fails only because a packed field it needs still is a None placeholder when it runs
+                        return "packed-field-needs-later-packed-field"
                     return "hypothesis:" + re.sub(r" \(.*\)", "", h)
+    # every hypothesis of the theorem holds: the framing itself is at fault. Name the two repaired defects.
+    if any(len(bl) == 0 for bl in m.blocks.values()):
+        return "empty-block-list-dropped"
+    if beautify and needs_later_field(im, m, repl):
+        return "packed-field-needs-later-field"
     return None
 
 
